@@ -6,6 +6,7 @@ from harness import posetlib as PL
 ID = 'C09'
 COQ_IMPORTS = ['FCA.Corr.C09']
 CASE_TYPE = 'c09_case'
+COQ_HEADER = 'Set Printing Width 1000000.\n'   # Coq wraps long result lists; core's pair regex does not survive a wrap
 CHECK = 'c09_check'
 SHOW = 'c09_show'
 SHARD = 200
